@@ -34,18 +34,19 @@ def run(ctx):
     ]
     ctx.assumptions += [
         "concurrent use: the LOGICAL half of `free of data races` is proved on Model/NotifierConc.lean (one notifier, its "
-        "mutex, any number of goroutines, any scheduler; every method = lock brackets with one micro-step per loop "
-        "iteration + an unlocked phase on goroutine-local data): the registry is linearizable, every concurrent Notify "
+        "lock, any number of goroutines, any scheduler; every method = lock brackets with one micro-step per loop "
+        "iteration + an unlocked phase on goroutine-local data), on the exclusive machine and on the readers-writer "
+        "machine (Enabled / BatchLevel / the ancestor walk overlap): the registry is linearizable, every concurrent Notify "
         "delivers the sequential model's list for the registry state at its linearization point, callback steps touch no "
-        "shared state and commute with everything, and without the mutex there is a non-linearizable schedule.  NOT "
-        "proved: that the Go code touches the maps only inside the brackets and never writes a snapshot's backing array "
-        "after handing it out (memory-level race freedom) -- that half is observed by the `-race` stress run of this "
-        "check; RLock brackets are modelled as exclusive (they do not write: NtC.rrun_read_pure); the model is per "
-        "notifier (RegisterFromNotifier = copyOut on the source + mergeIn on the destination, two mutexes)",
-        "re-entrancy (a target calling back into a notifier from HandleNotification/BatchMode) is transcribed by the "
-        "driver, not by a theorem: every method finishes its registry work and unlocks before the first callback and "
-        "iterates over a local snapshot, so the nested call is Nt.step applied to the state the outer call left, its "
-        "callbacks are made in between; a lock held during delivery shows as a runtime deadlock abort of that line",
+        "shared state and commute with everything, and without the mutex (or with writes under the read half) there is a "
+        "non-linearizable schedule; on Model/NotifierMerge.lean (several notifiers, one lock each) RegisterFromNotifier "
+        "calls in any directions never dead-lock.  NOT proved: that the Go code touches the maps only inside the brackets "
+        "(decided about SSA-derived tables: Props/C17Lock.lean) and never writes a snapshot's backing array after handing "
+        "it out (memory-level race freedom) -- observed by the `-race` stress run of this check",
+        "re-entrancy (a target calling back into a notifier from HandleNotification/BatchMode) is part of the model: "
+        "Nt.stepRe (Model/NotifierReentry.lean) threads the world through the delivery loops, the armed operation is a "
+        "complete exported call at the moment of the callback (C17.reentrant_call_spec); one level deep (the arm fires "
+        "once); a lock held during delivery shows as a runtime deadlock abort of that line",
         "errs.Recovery calls the handler exactly once per panic (C13 territory); the harness counts the handler calls",
         "batchLevel does not overflow int",
     ]
@@ -55,7 +56,8 @@ def run(ctx):
     ctx.harness("./cmd/c17", overlay=OVERLAY)
     th = ("C17.notify_targets / notify_priority_order / no_textual_prefix / "
           "disabled_or_unregistered_or_reset_silent / merge_spec / batch_nesting / maps_consistent / "
-          "panic_does_not_stop_delivery / panic_does_not_stop_batch / panic_step are theorems about the model Nt.step; "
+          "panic_does_not_stop_delivery / panic_does_not_stop_batch / panic_step / reentrant_call_spec are theorems about the "
+          "model Nt.step / Nt.stepRe; "
           "the implementation differs from that model on this history")
     # black-box protocol: only calls received by targets, recovery reports, BatchLevel(), Enabled()
     ctx.diff(area="notifier", driver="drv_c17", n={"quick": 100000, "thorough": 3000000}, stateful=True,
@@ -82,14 +84,90 @@ def wb_diff(ctx):
                      "maps differ from them on this history")
 
 
+RACE_LABEL = ("goroutines calling every method concurrently under -race; judge = conclusion of "
+              "C17.concurrent_registry_linearizable / notify_delivers_snapshot (a linearization must "
+              "explain all observations and the final maps), BatchMode balance, no duplicate delivery, "
+              "one report per panic; race report (halt_on_error), escaped panic, deadlock = FAIL")
+
+
 def race_oracle(ctx):
-    if ctx.harness("./cmd/c17", name="race", race=True, overlay=OVERLAY):
-        ctx.impl_oracle("race", {"quick": 24, "thorough": 300}, name="race",
-                        label="goroutines calling every method concurrently under -race; judge = conclusion of "
-                              "C17.concurrent_registry_linearizable / notify_delivers_snapshot (a linearization must "
-                              "explain all observations and the final maps), BatchMode balance, no duplicate delivery, "
-                              "one report per panic; race report (halt_on_error), escaped panic, deadlock = FAIL",
-                        extra_env={"GORACE": "halt_on_error=1"}, timeout=600)
+    """The -race stress run, judged twice: by the harness (Go reference, as ctx.impl_oracle would) and -- every
+    linearizability round it recorded -- by the Lean model itself: drv_c17 `lin` searches an acquisition order for which
+    Mutex.seqExec NtC.rrun (the left-hand side of C17.concurrent_registry_linearizable) hands every call the results it
+    observed and ends in the observed registry."""
+    if not ctx.harness("./cmd/c17", name="race", race=True, overlay=OVERLAY) or ctx.replay:
+        return
+    area, name = "race", "race"
+    total = {"quick": 24, "thorough": 300}[ctx.tier]
+    lines = ctx.gen(area, ctx.seed * 7919 + 17, total, name)
+    outs = ctx.run_impl(area, lines, name, timeout=600 if ctx.tier == "quick" else 2400,
+                        extra_env={"GORACE": "halt_on_error=1"})
+    if outs is None:
+        return
+    ctx.rules.append("area %s (%s): implementation-side oracle, no Lean model; counted separately" % (area, RACE_LABEL))
+    ctx.rules.append("area race, second judge: every recorded linearizability round (calls stamped at call/return, what "
+                     "each call observed, white-box dump afterwards) is judged by the Lean model: drv_c17 `lin` must find "
+                     "an acquisition order acq (program order, real time, brackets of a call adjacent) with "
+                     "Mutex.seqExec NtC.rrun s0 acq explaining every observation and the final registry")
+    bad = 0
+    model_lines, owner = [], []
+    for l, o in zip(lines, outs):
+        ctx.extra["oracle_" + area] = ctx.extra.get("oracle_" + area, 0) + 1
+        if o.startswith("FAIL") or o.startswith("crash") or o == "panic":
+            known = ctx._known_match(area, l, [l])
+            if known:
+                ctx.known_hits.append(known)
+                continue
+            bad += 1
+            if bad <= 3:
+                rep = {"property": ctx.id, "kind": "impl-oracle", "area": area, "harness": name, "ops": [l],
+                       "impl_outputs": [o[:4000]], "concrete_failing_input": True, "note": RACE_LABEL}
+                path = ctx._write_replay(rep)
+                ctx.violations.append({"kind": "impl-oracle", "what": "%s: %s on `%s`" % (area, o[:200], l[:160]),
+                                       "replay": path, "concrete": True})
+            continue
+        if " LIN " in o:
+            model_lines.append("lin0")
+            owner.append(l)
+            for r in o.split(" LIN ", 1)[1].split(";"):
+                model_lines.append("lin " + r)
+                owner.append(l)
+        if len(ctx.samples) < 16 and ctx.extra["oracle_" + area] % 8 == 1:
+            ctx.samples.append({"area": area, "op": l[:200], "oracle": o[:160]})
+    if not model_lines:
+        return
+    mo = ctx.run_model("drv_c17", model_lines, timeout=600)
+    if mo is None:
+        ctx.violations.append({"kind": "model", "what": "drv_c17 did not answer the `lin` lines of the race area",
+                               "concrete": False})
+        return
+    judged, failed, blamed = 0, 0, set()
+    for k, (ml, out) in enumerate(zip(model_lines, mo)):
+        if ml == "lin0":
+            continue
+        judged += 1
+        if out.startswith("lin-ok"):
+            continue
+        failed += 1
+        if owner[k] in blamed:
+            continue  # after the first unexplained round of a stress line the model has no start state any more
+        blamed.add(owner[k])
+        if len(blamed) <= 3:
+            start = max(i for i in range(k + 1) if model_lines[i] == "lin0")
+            rep = {"property": ctx.id, "kind": "correspondence", "area": area, "harness": name, "ops": [owner[k]],
+                   "model_ops": model_lines[start:k + 1], "model_outputs": mo[start:k + 1],
+                   "concrete_failing_input": True,
+                   "note": "recorded concurrent history (last model_ops line) that no acquisition order of the Lean model "
+                           "explains: C17.concurrent_registry_linearizable / notify_delivers_snapshot / "
+                           "batch_delivers_snapshot fail for the implementation on this run"}
+            path = ctx._write_replay(rep)
+            ctx.violations.append({"kind": "correspondence",
+                                   "what": "race: round not linearizable w.r.t. the Lean model (%s) on `%s`: %s"
+                                           % (out, owner[k], model_lines[k][-300:]),
+                                   "replay": path, "concrete": True})
+    ctx.evals += judged
+    ctx.extra["race_rounds_judged_by_lean_model"] = judged
+    ctx.extra["race_rounds_unexplained"] = failed
 
 
 def tagger(line, out):
@@ -99,4 +177,13 @@ def tagger(line, out):
         return "notify:%s-targets" % ("0" if n == 0 else "1" if n == 1 else "2+")
     if k in ("start", "end"):
         return k + (":calls" if " b" in out else ":silent")
+    f = line.split(" ")
+    if k == "arm" and len(f) > 2:
+        return "arm:" + f[2]          # which operation the re-entrant targets will perform inside their next callback
+    if k == "merge" and len(f) > 2:
+        return "merge:" + ("self" if f[1] == f[2] else "other")
+    if k == "enable" and len(f) > 2:
+        return "enable:" + f[2]
+    if k == "reg":
+        return "reg:%s-names" % min(len(f) - 4, 3)
     return None
